@@ -19,7 +19,7 @@ import re
 import shutil
 import time
 
-from vcommon import Infra, build_harness, copy_specs, monitor_report, run, scratch_dir, tlc, tlc_errors, tlc_stats, tlc_violations
+from vcommon import Infra, drive, build_harness, copy_specs, monitor_report, run, scratch_dir, tlc, tlc_errors, tlc_stats, tlc_violations
 
 PROPS = ["C15", "C16"]
 DESIGN = {
@@ -81,9 +81,7 @@ def compute(tier, seed):
                 design["violations"].append({"cfg": cfg, "violated": ["expected counterexample of %s not found" % inv]})
         fbin = build_harness("fs")
         outdir = os.path.join(work, "run")
-        rc, txt, hsecs = run([fbin, "-out", outdir, "-seed", str(seed), "-tier", tier], timeout=5400, check=False)
-        if rc != 0:
-            raise Infra("fs harness failed: " + txt[-2000:])
+        txt, hsecs = drive([fbin, "-out", outdir, "-seed", str(seed), "-tier", tier], work, "fsstore", timeout=5400)
         summary = json.load(open(os.path.join(outdir, "summary.json")))
         found, cstats, istats, images = judge(work, outdir)
         viol = []
